@@ -109,6 +109,15 @@ Print Assumptions C15_src_pin_linux_reflink.
 From XcpProofs Require Import XState.
 From Coq Require Import String.
 Theorem C15_src_no_state_carried_between_files :
-  x_static_items = ["libxcp/src/backup.rs::BAK_REGEX"%string] /\ x_thread_locals = [] /\ x_umask_calls = 0%N.
+  x_static_items = ["libxcp/src/backup.rs::BAK_REGEX"; "libxcp/src/operations.rs::BACKUP_STEP"]%string /\ x_thread_locals = [] /\ x_umask_calls = 0%N.
 Proof. exact x_process_wide_state_ok. Qed.
 Print Assumptions C15_src_no_state_carried_between_files.
+
+(* ---- more glue on this property's path, pinned token for token ---- *)
+From XcpPins Require Import Pin_operations_new Pin_operations_copy_file.
+Theorem C15_src_pin_operations_new : pin_unchanged name_operations_new.
+Proof. exact pin_operations_new. Qed.
+Theorem C15_src_pin_operations_copy_file : pin_unchanged name_operations_copy_file.
+Proof. exact pin_operations_copy_file. Qed.
+Print Assumptions C15_src_pin_operations_new.
+Print Assumptions C15_src_pin_operations_copy_file.
